@@ -22,7 +22,7 @@ func (g *Graph) RandomPath(rng *rand.Rand, maxLen int) []*Edge {
 		var cands []*Edge
 		for _, e := range g.Out[cur] {
 			c := e.Lbl.Cmd
-			if c.C == "AFTER" || (c.C == "EOF" && c.A == "abort") || (c.C == "MAIL" && c.A == "panic") || strings.Contains(c.P, "panic") || (c.C == "STARTTLS" && e.Dst.Tls != e.Src.Tls) {
+			if c.C == "AFTER" || (c.C == "EOF" && c.A == "abort") || (c.C == "MAIL" && c.A == "panic") || (c.C == "RSET" && c.A == "panic") || strings.Contains(c.P, "panic") || (c.C == "STARTTLS" && e.Dst.Tls != e.Src.Tls) {
 				continue
 			}
 			// keep walks productive: favour edges that change the state
